@@ -112,6 +112,7 @@ RULES = {
     'R10': 'for [&]v in Q.iter() { B }  ->  for r10_i in 0..Q.len() { let v = [&]Q[r10_i]; B }',
     'R11': 'for x in (A..B).rev() { S }  ->  for r11_k in A..B { let x = B - 1 - (r11_k - A); S }   (and (A..=B).rev() -> A..=B with x = B - (r11_k - A))',
     'R12': 'a private helper method without a contract and without `return` is inlined at its call sites: f(a, b) -> { let r12_0 = (a); let r12_1 = (b); let p = r12_0; let q = r12_1; BODY } (modular verification cannot see through an uncontracted call)',
+    'M5': 'impl Default for X<T, Echo<T>> { fn default() -> Self { B } } is kept as an inherent constructor `default()` of X<Echo> with the constructor contract',
     'M4': '#[derive(Clone)] is expanded to the field-wise clone it generates (view fields: clone_view, Copy scalars: copy, Vec/VecDeque of scalars: trusted deque_clone/vec_clone); a hand-written Clone impl is left unverified and reported',
     'R13': 'guard-style early returns `if c { return e; }` of an inlined helper become `if c { e } else { rest }`',
     'L1': 'local variables renamed (same let-bindings in the same order, fresh names): the contract text of the function follows the rename',
@@ -260,6 +261,7 @@ class Contract:
         self.sec['implspec'] = spec + self.sec.get('implspec', [])
         def sub_self(e, to):
             return re.sub(r'\bself\b', to, e)
+        self.init_own = '(%s { %s })' % (O0 + ('::<%s>' % xg if xg else ''), ', '.join('%s: %s' % (f, init[f].strip()) for f, _, _ in own))
         newc = ['requires view.inv()']
         newc += ['ensures[init|C08,C17] r.view.abs() == view.abs() && r.abs().1 == (%s { %s })' % (O0 + ('::<%s>' % xg if xg else ''), ', '.join('%s: %s' % (f, init[f].strip()) for f, _, _ in own))]
         newc += ['ensures[inv:%s|%s] %s' % (l, t, sub_self(e, 'r')) for l, t, e in conj]
@@ -651,6 +653,9 @@ def process_file(em, path, report):
     s = strip_comments(src)
     s = '\n'.join(ln for ln in s.split('\n') if not re.match(r'\s*(use |#\[derive|#\[inline|#\[getset)', ln))
     # multi-line `use std::{...};` never occurs except on one line; assert no stray `use`
+    # M5: `impl Default for X<T, Echo<T>> { fn default() -> Self { BODY } }` is one more constructor: kept as an inherent `default()` with the
+    # constructor contract (fresh view over Echo in the initial abstract state); derived Default (Echo, Constant) is the field-wise default
+    defaults = re.findall(r'impl<T: Float> Default for (\w+)<T, Echo<T>>\s*\{\s*fn default\(\) -> Self \{([^}]*)\}\s*\}', s)
     s = re.sub(r'impl(<T: Float>)? Default for [^{]*\{\s*fn default\(\) -> Self \{[^}]*\}\s*\}', '', s)
     orig_items = top_items(s)           # before M1, for the fidelity record
     s = monomorphise(s)
@@ -744,6 +749,22 @@ def process_file(em, path, report):
             fns.append(dict(module=stem, fn=name, sha256=sha(body), rules=sorted(ap), body_lines=body.count('\n')))
         else:
             raise ExtractError('unsupported top-level item in %s: %s' % (path, h[:60]))
+    for dname, dbody in defaults:
+        if dname != struct_name or not getattr(vc, 'init_own', None): continue
+        st = em.lineno() + 1
+        em.add('impl %s<Echo> {' % dname)
+        em.add('    pub fn default() -> (r: Self)')
+        em.add('        ensures')
+        txt = 'r.inv() && r.abs() == (None::<T>, %s)' % vc.init_own
+        em.add('            %s,' % txt, dict(module=stem, fn='default', kind='ensures', label='default', tags=['C13', 'C15'], text=txt))
+        em.add('    {')
+        em.add(dbody.strip('\n'))
+        em.add('    }')
+        em.add('}')
+        em.fnspans.append((st, em.lineno(), stem, 'default'))
+        applied.add('M5')
+        fns.append(dict(module=stem, fn='default', sha256=sha(dbody), rules=['M5'], body_lines=dbody.count('\n')))
+    report['functions'] += []
     post = vc.get('post')
     if post: em.add(post)
     em.add('} // mod %s' % stem)
